@@ -93,7 +93,9 @@ def direct_laws(op, rng, n_sets):
     N, d1, lam, z = 8, 0.01, 1e-6, 500.0
     U = rng.standard_normal((N, N)) + 1j * rng.standard_normal((N, N))
     p_in = (np.abs(U) ** 2).sum() * d1 ** 2
-    for m in (1 + 4e-6, 1 - 4e-6, 1 + 3e-7, 1 - 1e-4, 1 + 1e-3):
+    for m, d1, lam, z in [(m_, 0.01, 1e-6, 500.0) for m_ in (1 + 4e-6, 1 - 4e-6, 1 + 3e-7, 1 - 1e-4, 1 + 1e-3)] + \
+            [(1.004, 2e-6, 633e-9, 2e-5), (0.997, 5e-6, 500e-9, -1e-4), (1.0005, 1e-6, 1.55e-6, 3e-6)]:          # ... and micron-scale grids
+        p_in = (np.abs(U) ** 2).sum() * d1 ** 2
         for name, f in (("angularSpectrum", lambda W: op.angularSpectrum(W, lam, d1, m * d1, z)),
                         ("twoStepFresnel", lambda W: op.twoStepFresnel(W, lam, d1, m * d1, z))):
             out = np.asarray(f(U.copy()))
@@ -102,6 +104,8 @@ def direct_laws(op, rng, n_sets):
             if not np.all(np.isfinite(out)) or abs(p_out - p_in) > 2e-8 * p_in:
                 bad.append(("%s:power-not-conserved:magnification-close-to-1" % name, dict(m=m, ratio_minus_1=float(p_out / p_in - 1))))
                 return bad, done
+    N, d1, lam, z = 8, 0.01, 1e-6, 500.0
+    p_in = (np.abs(U) ** 2).sum() * d1 ** 2
     for s_ in (1e-30, 1e-18, 3e-15, 1e-12, 1e-6, 1e3, 1e12, 1e25):
         for name, f, dout in (("angularSpectrum", lambda W: op.angularSpectrum(W, lam, d1, 1.5 * d1, z), 1.5 * d1),
                               ("twoStepFresnel", lambda W: op.twoStepFresnel(W, lam, d1, 1.5 * d1, z), 1.5 * d1),
@@ -145,6 +149,46 @@ def direct_laws(op, rng, n_sets):
             if abs(p_out - p_in) > 1e-11 * p_in or not np.allclose(lin, (2 - 1j) * out, rtol=0, atol=1e-12 * np.abs(out).max()):
                 bad.append(("%s:precision-depends-on-an-earlier-call" % name, dict(N=N, power_error=float(abs(p_out / p_in - 1)),
                                                                                   linearity_error=float(np.abs(lin - (2 - 1j) * out).max() / np.abs(out).max()))))
+                return bad, done
+    # one work buffer refilled IN PLACE between calls (the same array object, other contents): the result follows the contents
+    N, d1, lam, z = 20, 0.01, 1e-6, 500.0
+    V1 = rng.standard_normal((N, N)) + 1j * rng.standard_normal((N, N))
+    V2 = rng.standard_normal((N, N)) + 1j * rng.standard_normal((N, N))
+    for name, f in (("lensAgainst", lambda W: op.lensAgainst(W, lam, d1, z)), ("lensAgainst[other f]", lambda W: op.lensAgainst(W, 1.5 * lam, d1, 2 * z)),
+                    ("angularSpectrum", lambda W: op.angularSpectrum(W, lam, d1, 1.5 * d1, z)), ("oneStepFresnel", lambda W: op.oneStepFresnel(W, lam, d1, z)),
+                    ("twoStepFresnel", lambda W: op.twoStepFresnel(W, lam, d1, 1.5 * d1, z))):
+        buf = V1.copy()
+        f(buf)
+        buf[...] = V2
+        o2 = np.asarray(f(buf))
+        buf *= 3.0
+        o3 = np.asarray(f(buf))
+        want2 = np.asarray(f(V2.copy()))
+        done += 1
+        if not np.allclose(o2, want2, rtol=0, atol=1e-12 * np.abs(want2).max()) or not np.allclose(o3, 3 * want2, rtol=0, atol=1e-11 * np.abs(want2).max()):
+            bad.append(("%s:result-follows-the-array-object-not-its-contents" % name.split("[")[0], dict(err=float(np.abs(o2 - want2).max() / np.abs(want2).max()))))
+            return bad, done
+    # chains of steps with different magnifications (what one call returns is the next call's input, unchanged): power at every plane
+    N = 18
+    U0 = rng.standard_normal((N, N)) + 1j * rng.standard_normal((N, N))
+    for mags in ((1.5, 1.0), (1.5, 1.0, 1.0), (0.5, 1.0, 2.0), (2.0, 1.0, 0.5, 1.0)):
+        planes = {}
+        for coef in (1.0, 2j):                        # the same chain for U0 and for 2i U0, every step fed with the previous step's output as it is
+            W, d = coef * U0, d1
+            p0 = (np.abs(W) ** 2).sum() * d ** 2
+            for k_, m in enumerate(mags):
+                zz = (-1) ** k_ * 300.0
+                W = np.asarray(op.angularSpectrum(W, lam, d, m * d, zz))
+                d = m * d
+                done += 1
+                pk = (np.abs(W) ** 2).sum() * d ** 2
+                if abs(pk - p0) > 1e-9 * p0:
+                    bad.append(("angularSpectrum:power-not-conserved:chain-of-steps", dict(magnifications=list(mags), step=k_ + 1, ratio=float(pk / p0))))
+                    return bad, done
+                planes.setdefault(k_, []).append(W.copy())
+        for k_, (w1, w2) in planes.items():
+            if not np.allclose(w2, 2j * w1, rtol=0, atol=1e-11 * np.abs(w1).max()):
+                bad.append(("angularSpectrum:not-linear:chain-of-steps", dict(magnifications=list(mags), step=k_ + 1)))
                 return bad, done
     # very short distances with magnification != 1 (lam |z| / d^2 from 1e-8 to 1e-3): still another grid, still the same power
     N = 8
